@@ -12,6 +12,9 @@ CONSTANTS
   MaxCalls = 2
   NDuties = 3
   SlotGaps = {1}
+  MaxOpen = 1
+  MaxInFlight = 1
+  InitCfgs <- AllCfgs
   LaterAllChoices = {{}, {1}}
   LaterVersions = {"deneb"}
   LaterOutcomes = {"full", "never"}
